@@ -318,6 +318,8 @@ def tasks(tier):
     from . import c02_spline
     for order in ("gq", "qg"):
         out.append(Task("spline_plan/knots/%s" % order, c02_spline.h_spline_knots, dict(order=order), mods="numint"))
+    out.append(Task("contribution_layout/2_vector_features", c02_spline.h_contrib_layout, {}, mods="numint"))
+    out.append(Task("contribution_layout/vj+2_vector_features", c02_spline.h_contrib_layout, dict(ifeat_ids=(2, 7, 6), has_vj=True), mods="numint"))
     out.append(Task("smooth_exponent", h_smooth, {}))
     out.append(Task("tables", h_tables, {}, mods="numint"))
     for nspin in (1, 2):
@@ -342,7 +344,7 @@ def extra_evidence(results):
 META = dict(
     explanation="formula layer only: clang IR of cider_coefs.c executed symbolically (through the real Python wrapper where one exists) and "
                 "compared by z3 with the documented kernels integrated by the Gaussian-moment lemma; plan contraction and exponent formulas by E1",
-    functions=['ciderpress/dft/plans.py: NLDFSplinePlan._run_setup, NLDFGaussianPlan._run_setup, _construct_cubic_splines, get_interpolation_coefficients, get_transformed_interpolation_terms (spline_plan/knots/*; cider_coefs_gto_* by contract, Cholesky as exact solve)', "ciderpress/lib/mod_cider/cider_coefs.c (clang -O1 IR): cider_coefs_gto_gq/qg (4 feature ids), cider_coefs_vk1_gq/qg, cider_ind_etb, cider_ind_zexp, "
+    functions=['ciderpress/dft/lcao_convolutions.py: ConvolutionCollection.__init__, n0, n1, nbeta (contribution_layout/*)', 'ciderpress/dft/plans.py: NLDFSplinePlan._run_setup, NLDFGaussianPlan._run_setup, _construct_cubic_splines, get_interpolation_coefficients, get_transformed_interpolation_terms (spline_plan/knots/*; cider_coefs_gto_* by contract, Cholesky as exact solve)', "ciderpress/lib/mod_cider/cider_coefs.c (clang -O1 IR): cider_coefs_gto_gq/qg (4 feature ids), cider_coefs_vk1_gq/qg, cider_ind_etb, cider_ind_zexp, "
                "cider_ind_clip, cider_coefs_spline_gq/qg, smooth_cider_exponents, _expnt_sat_func, _expnt_sat_deriv",
                "ciderpress/dft/plans.py: _get_ovlp_fit_interpolation_coefficients, VJ_ID_MAP, VI_ID_MAP, get_ccl_settings, NLDFAuxiliaryPlan.eval_rho_full/eval_rho_vi_",
                "ciderpress/dft/settings.py: get_cider_exponent(_gga), ALLOWED_*_SPECS"],
